@@ -10,7 +10,7 @@
 import ast
 
 from ..loader import AnalysisError, dotted, FuncInfo
-from ..astutil import walk_own, calls_in, norm, Defs, leaves, stmt_of, kwarg, need, returns_of
+from ..astutil import walk_own, calls_in, norm, Defs, leaves, stmt_of, kwarg, need, returns_of, expand
 from .. import cfg as cfgmod
 from ..effects import get_effects
 from ..variants import Witness
@@ -363,10 +363,28 @@ def rule_r5(p, res):
                 {"site": norm(n), "scale_rows_per_mode": rows})
 
 
+def rule_r6(p, res):
+    r = res.rule("C18.R6", "window-centre correction of landmarks: translate to the first centre, then divide by the step")
+    f = p.func("menpo.feature.base.lm_centres_correction")
+    r.instance(f)
+    d = Defs(f.node)
+    rets = returns_of(f.node)
+    need(len(rets) == 1 and isinstance(rets[0].value, ast.Call) and isinstance(rets[0].value.func, ast.Attribute), "C18.R6: return of lm_centres_correction not recognised")
+    k = rets[0].value
+
+    def kind(e):
+        e = expand(e, d)
+        return (dotted(e.func) or "") if isinstance(e, ast.Call) else None
+
+    recv, arg, meth = kind(k.func.value), kind(k.args[0]) if k.args else None, k.func.attr
+    ok = (meth == "compose_before" and recv == "Translation" and arg in ("NonUniformScale", "Scale")) or (meth == "compose_after" and arg == "Translation" and recv in ("NonUniformScale", "Scale"))
+    r.check(ok, f, rets[0], "the correction must first translate by minus the first window centre and then scale by 1/step ((x - c0) / step); found `%s` with %s / %s" % (norm(k), recv, arg))
+
+
 # rules of sibling properties over code paths this property's statement also quantifies over (DESIGN.md section 3, shared rules)
 ALSO = ['C02.R2', 'C05.R5']
 
-RULES = [rule_r1, rule_r2, rule_r3, rule_r4, rule_r5]
+RULES = [rule_r1, rule_r2, rule_r3, rule_r4, rule_r5, rule_r6]
 
 WITNESSES = [
     Witness("C18.W1", "menpo/feature/features.py", "es", "@ndfeature\ndef es(", "def es(", rule="C18.R1", construct="es"),
@@ -394,4 +412,8 @@ WITNESSES += [
 WITNESSES += [
     Witness("C18.W12", "menpo/feature/features.py", "normalize_std", "error_on_divide_by_zero=error_on_divide_by_zero", "error_on_divide_by_zero=True",
             rule="C18.G4", construct="normalize_std", note="generic: forwarded option replaced by a constant"),
+]
+
+WITNESSES += [
+    Witness("C18.W13", "menpo/feature/base.py", "lm_centres_correction", "return t.compose_before(s)", "return s.compose_before(t)", rule="C18.R6", construct="lm_centres_correction", note="seeded change R5-C18-A"),
 ]
